@@ -244,7 +244,26 @@ def r3_retry_condition(ctx):
                 tr = [e for e in cfg.succ.get(blk.idx, []) if e.label != ("sw", 0)]
                 if t.bb not in cfg.reachable(cfg.entry, cut_edges=[e.key() for e in tr]):
                     oksub = True
-        if conds and okenoent and oksub:
+        # ... and always: once the lookup on a masked handle said ENOENT, the only ways on are the retry or "not masked"
+        # (a further condition that skips the retry reports an existing-but-masked path as missing)
+        sub_false = []
+        for blk in b.blocks:
+            if blk.cleanup or blk.term.kind != "switch":
+                continue
+            d = Operand(blk.term.raw["d"])
+            if d.place is None:
+                continue
+            if any(x.fpath[-1:] == ("is_subset",) for x in T.origins(b, blk.idx, len(blk.stmts), d.place)):
+                sub_false.extend(e for e in cfg.succ.get(blk.idx, []) if e.label == ("sw", 0))
+        always = True
+        if en:
+            eq_edges = [e for br in en for e in br["eq"]]
+            region = cfg.edge_targets_reachable(eq_edges, cut_nodes=[t.bb], cut_edges=[e.key() for e in sub_false])
+            if set(region) & set(cfg.return_blocks()):
+                always = False
+        if conds and okenoent and oksub and not always:
+            out.append(violated("C08.R3", key, t.where(), "ENOENT on a masked handle does not always lead to the retry: a further condition lets the masked handle's ENOENT through, so a path hidden by the masking is reported as missing"))
+        elif conds and okenoent and oksub:
             out.append(holds("C08.R3", key, t.where(), "retry only for ENOENT on a masked handle"))
         else:
             out.append(violated("C08.R3", key, t.where(), "retry condition: kind-test=%s ENOENT=%s is_subset-test=%s" % (bool(conds), okenoent, oksub)))
@@ -295,6 +314,11 @@ def r4_true_errors(ctx):
     # ... and in the resolvers below them a failing system call is reported as what it was
     from .c04 import error_swaps
     out.extend(error_swaps(ctx, "C08.R4", lambda b: b.file in ("src/resolvers/procfs.rs", "src/procfs.rs")))
+    # ... and the errno of the kernel resolver's raw openat2 call is read before anything else can overwrite it
+    from .c16 import r8_errno_is_the_failing_calls
+    for i in r8_errno_is_the_failing_calls(ctx):
+        i.rule = "C08.R4"
+        out.append(i)
     for fn in (PH + "::open", PH + "::open_noretry", PH + "::readlink"):
         if not F.has(fn):
             if fn.endswith("open_noretry"):
@@ -338,6 +362,13 @@ def r5_retry_handle_is_unmasked(ctx):
             out.append(holds("C08.R5", "new_unmasked:fsopen-arg", t.where(), "new_fsopen(%s)" % (o[0].detail or o[0].const_int())))
         else:
             out.append(violated("C08.R5", "new_unmasked:fsopen-arg", t.where(), "new_unmasked does not ask for an unmasked instance: %r" % o))
+    # the retry handle is first of all a *fresh private* instance (a clone of the host's /proc inherits the host's
+    # hidepid=/subset= options): constructor preference order of new_unmasked (C06.R6)
+    from .c06 import r6_constructor_order
+    for i in r6_constructor_order(ctx):
+        if "new_unmasked" in i.key:
+            i.rule = "C08.R5"
+            out.append(i)
     b = F.body(nf)
     cfg = cfg_of(b)
     # specialise new_fsopen on what new_unmasked passes: `false`, or a unit variant of an enum that replaced the bool
